@@ -4,6 +4,7 @@ package net
 
 import (
 	"bytes"
+	gonet "net"
 	"os"
 
 	"github.com/lugu/qiloop/internal/zzverif/sym"
@@ -304,4 +305,60 @@ func C10PipeSenders() {
 	sym.Assert(seen1 && seen2, "pipe/message-lost")
 	e.Close()
 	sym.Reach("pipe-done")
+}
+
+// C10ConnSenders: the in-memory pipe transport (ConnStream over net.Pipe, whose real, unbuffered
+// implementation is interpreted): two senders on one end, a handler with room on the other: both
+// frames arrive intact, each once; one of the frames is larger than what the reader asks for at once.
+func C10ConnSenders() {
+	a, b := gonet.Pipe()
+	e1 := ConnEndPoint(a)
+	got := make(chan *Message, 4)
+	e2 := EndPointFinalizer(ConnStream(b), func(e EndPoint) {
+		e.MakeHandler(func(h *Header) (bool, bool) { return true, true }, got, nil)
+	})
+	big := make([]byte, 300)
+	big[0], big[299] = sym.U8("first"), sym.U8("last")
+	m1 := NewMessage(NewHeader(Call, sym.U32("s1"), 1, 1, 1), big)
+	m2 := NewMessage(NewHeader(Call, sym.U32("s2"), 1, 1, 2), []byte{sym.U8("small")})
+	done := make(chan bool, 2)
+	var ok1, ok2 bool
+	go func() { ok1 = e1.Send(m1) == nil; done <- true }()
+	go func() { ok2 = e1.Send(m2) == nil; done <- true }()
+	<-done
+	<-done
+	// (a transport with time-outs may refuse a message: what counts is that every message whose Send
+	// reported success arrives intact, once, and that nothing else arrives)
+	expected := 0
+	if ok1 {
+		expected++
+	}
+	if ok2 {
+		expected++
+	}
+	seen1, seen2 := false, false
+	for i := 0; i < expected; i++ {
+		m := <-got // a frame that never arrives is a deadlock finding
+		if m == nil {
+			sym.Fail("conn/stream-corrupted")
+			return
+		}
+		if m.Header.ID == 1 {
+			sym.Assert(!seen1 && zzSameMessage(*m, m1), "conn/large-message-altered")
+			seen1 = true
+		} else {
+			sym.Assert(!seen2 && zzSameMessage(*m, m2), "conn/small-message-altered")
+			seen2 = true
+		}
+	}
+	sym.Assert(seen1 == ok1 && seen2 == ok2, "conn/message-of-a-successful-send-missing")
+	sym.Schedules(false) // the tear-down runs under the default schedule
+	e1.Close()
+	e2.Close()
+	sym.Quiesce()
+	for m := range got {
+		_ = m
+		sym.Fail("conn/unexpected-extra-frame")
+	}
+	sym.Reach("conn-done")
 }
